@@ -15,7 +15,8 @@ import NanoVerif.Proofs.LSearchGet
 
   What is NOT proved here (tested by the oracle of tools/props/c07.py only): finiteness of the step (meaningless over a
   field), success on convex quadratics, positivity of the step for Moré–Thuente (false in the model for an arbitrary
-  interpolation function: `morethuente_success_step_positive_partial` + witness below) and for CG_DESCENT.
+  interpolation function: only `0 ≤ t` is proved, `morethuente_success_step_positive_partial`, and a model witness with
+  `t = 0` is given, `morethuente_step_zero_reachable`) and for CG_DESCENT.
 -/
 namespace NanoVerif.LSearch
 open NanoVerif.Gen.LsPredicates
@@ -133,11 +134,22 @@ theorem evalsBound_default :
 
   Full statement (NOT proved, and false in the model when the interpolation function is arbitrary):
     `(get .morethuente cfg φ s0 t0).ok = true → 0 < (get .morethuente cfg φ s0 t0).t`.
-  Missing case: after a bracketing step (`f(stp) > f(stx)`, `stx = 0`) whose interpolated step falls outside
+  Proved: `0 ≤ t` (`morethuente_success_step_positive_partial`).
+  Missing case `t = 0`: after a bracketing step (`f(stp) > f(stx)`, `stx = 0`) whose interpolated step falls outside
   `(stmin, stmax)` the code sets `stp = stx = 0` (morethuente.cpp:266-269), evaluates at `t = 0` and returns `{true, 0}`
-  from the "no further progress" exit in the next iteration. The witness below exhibits this in the model over ℚ with a
-  cubic-interpolation function that answers `10`; with the real cubic formula the interpolated step lies strictly inside
-  the bracket in exact arithmetic, and the oracle of tools/props/c07.py never observed `t ≤ 0` on the implementation. -/
+  from the "no further progress" exit in the next iteration. `morethuente_step_zero_reachable` exhibits this in the model
+  over ℚ with a cubic-interpolation function that answers `10`; with the real cubic formula the interpolated step lies
+  strictly inside the bracket in exact arithmetic, and the oracle of tools/props/c07.py never observed `t ≤ 0` on the
+  implementation. -/
+
+/-- Moré–Thuente never accepts a negative step (every trial step is `stx`, which is `0` or an earlier trial step, or a
+    value clamped to `[stpmin(), stpmax()]`). -/
+theorem morethuente_success_step_positive_partial (cfg : Cfg α) (φ : Oracle α) (s0 : Eval α) (t0 : α)
+    (he : 0 < cfg.macheps) (h : (get .morethuente cfg φ s0 t0).ok = true) : 0 ≤ (get .morethuente cfg φ s0 t0).t := by
+  refine get_step_prop (fun x => 0 ≤ x) .morethuente cfg φ s0 t0 he ?_ h
+  intro t ctx ht _
+  exact morethuente_nonneg cfg φ s0 he _ (morethuenteInit cfg s0 t) ctx (by simp [morethuenteInit])
+    (by simpa [morethuenteInit] using le_of_lt ht)
 
 def witnessCfg : Cfg ℚ :=
   { c1 := 1 / 10000, c2 := 1 / 10, maxIter := 128, fin := fun _ => true, interp := fun u v => (u.t + v.t) / 2,
@@ -150,7 +162,7 @@ def witnessPsi (t : ℚ) : Eval ℚ := if t = 0 then ⟨0, -1, true⟩ else ⟨1
 
 /-- Moré–Thuente reports success with `t = 0` in the model (arbitrary cubic interpolation): positivity of the accepted
     step cannot be proved for it without a contract on the interpolation. -/
-theorem morethuente_success_step_positive_partial :
+theorem morethuente_step_zero_reachable :
     (get .morethuente witnessCfg (fun _ => witnessPsi) ⟨0, -1, true⟩ 1).ok = true ∧
     (get .morethuente witnessCfg (fun _ => witnessPsi) ⟨0, -1, true⟩ 1).t = 0 := by
   decide +kernel
